@@ -4,6 +4,7 @@ Written from the Kubernetes API conventions, not from kopf's code. The patch app
 ``kopfsim.rfc`` (own RFC 7386 / RFC 6902 implementations).
 """
 import asyncio
+import collections
 import copy
 import json
 import re
@@ -56,11 +57,21 @@ class Watch:
         self.opened_at = self.loop.time()
         self.closed_at = None
         self.delivered = []        # (t, type, rv, uid)
+        self.fifo = collections.deque()   # in-flight items; timers only say "deliver the next one" (keeps the order
+                                          # even when two deliveries are due at the very same instant)
         self.pushed = 0
         self.fault_at = {}         # event ordinal -> fault spec (stream faults at position k)
 
     def matches(self, body):
         return self.namespace is None or self.namespace == body.get('metadata', {}).get('namespace')
+
+    def _deliver_next(self):
+        item, rec = self.fifo.popleft()
+        self._deliver(item, rec)
+
+    def _enqueue(self, when, item, rec):
+        self.fifo.append((item, rec))
+        self.loop.call_at(when, self._deliver_next)
 
     def _deliver(self, item, rec):
         if self.session.fenced or self.aborted:
@@ -86,7 +97,7 @@ class Watch:
         obj = ev.get('object', {})
         meta = obj.get('metadata', {}) if isinstance(obj, dict) else {}
         rec = (ev.get('type'), meta.get('resourceVersion'), meta.get('uid'))
-        self.loop.call_at(when, self._deliver, data, rec)
+        self._enqueue(when, data, rec)
 
     def end(self, exc=None):
         """Server-side or client-side end of the stream (after everything already in flight)."""
@@ -95,7 +106,7 @@ class Watch:
         self.closed = True
         self.closed_at = self.loop.time()
         self.cluster.drop_watch(self)
-        self.loop.call_at(max(self.loop.time(), self.not_before), self._deliver, exc, None)
+        self._enqueue(max(self.loop.time(), self.not_before), exc, None)
 
     def abort(self, exc):
         """Client closed the response: the reader fails at once, in-flight events are lost."""
